@@ -1,6 +1,7 @@
 package main
 
 import (
+	"encoding/hex"
 	"fmt"
 	"strconv"
 	"strings"
@@ -313,6 +314,10 @@ func (g *gen) script(profile string, n int) []step {
 				st = append(st, s)
 			}
 		}
+	case "hostile":
+		st = g.hostile(n, false)
+	case "hostilem":
+		st = g.hostile(n, true)
 	default:
 		panic("unknown profile " + profile)
 	}
@@ -323,7 +328,28 @@ func stepLine(s step) string {
 	if s.X != "" {
 		return fmt.Sprintf("X %s %s", s.X, dash(s.Xarg))
 	}
-	return fmt.Sprintf("OP %d %s %d %s", s.Conn, s.Name, len(s.Args), joinToks(s.Args))
+	return fmt.Sprintf("OP %d %s %d %s", s.Conn, nameTok(s.Name), len(s.Args), joinToks(s.Args))
+}
+
+// command names are written verbatim when alphanumeric, otherwise as ":" + hex
+func nameTok(n string) string {
+	ok := n != ""
+	for _, c := range []byte(n) {
+		if !(c >= 'A' && c <= 'Z' || c >= 'a' && c <= 'z' || c >= '0' && c <= '9') {
+			ok = false
+		}
+	}
+	if ok {
+		return n
+	}
+	return ":" + hex.EncodeToString([]byte(n))
+}
+func nameUntok(t string) string {
+	if strings.HasPrefix(t, ":") {
+		b, _ := hex.DecodeString(t[1:])
+		return string(b)
+	}
+	return t
 }
 
 func parseStepLine(l string) (step, bool) {
@@ -347,7 +373,74 @@ func parseStepLine(l string) (step, bool) {
 		} else {
 			args = args[:n]
 		}
-		return step{Conn: c, Name: t[2], Args: args}, true
+		return step{Conn: c, Name: nameUntok(t[2]), Args: args}, true
 	}
 	return step{}, false
+}
+
+
+// every name GetCommand knows (checked against the source by the translator) plus unknowns
+var allCommands = []string{"CLIENT", "CONFIG", "DBSIZE", "PING", "ECHO", "FLUSHDB", "WATCH", "UNWATCH", "MULTI", "DISCARD", "EXEC",
+	"FLUSHALL", "SAVE", "INFO", "DEL", "UNLINK", "EXISTS", "EXPIRE", "EXPIREAT", "KEYS", "RANDOMKEY", "TTL", "PTTL", "PERSIST", "RENAME",
+	"RENAMENX", "TYPE", "SCAN", "SET", "MSET", "APPEND", "SETEX", "SETNX", "GET", "GETSET", "MGET", "SETRANGE", "GETRANGE", "STRLEN", "INCR",
+	"INCRBY", "DECR", "DECRBY", "INCRBYFLOAT", "SETBIT", "GETBIT", "BITCOUNT", "SADD", "SMOVE", "SSCAN", "SCARD", "SPOP", "SDIFF",
+	"SDIFFSTORE", "SINTER", "SINTERSTORE", "SUNION", "SUNIONSTORE", "SISMEMBER", "SMEMBERS", "SRANDMEMBER", "SREM", "HSET", "HGET", "HDEL",
+	"HLEN", "HKEYS", "HEXISTS", "HGETALL", "HINCRBY", "HINCRBYFLOAT", "HSETNX", "HMGET", "HMSET", "HCLEAR", "HSTRLEN", "HSCAN", "HVALS",
+	"LPUSH", "RPUSH", "LPOP", "RPOP", "LLEN", "LINDEX", "LINSERT", "LPUSHX", "RPUSHX", "LREM", "LTRIM", "LSET", "LRANGE", "LPOPRPUSH",
+	"RPOPLPUSH", "BLPOP", "BRPOP", "ZADD", "ZCARD", "ZRANK", "ZREVRANK", "ZSCORE", "ZINCRBY", "ZRANGE", "ZREVRANGE", "ZRANGEBYSCORE",
+	"ZREVRANGEBYSCORE", "ZREM", "ZCOUNT", "ZREMRANGEBYRANK", "ZREMRANGEBYSCORE", "ZCLEAR", "ZUNIONSTORE", "ZINTERSTORE", "ZEXISTS", "ZSCAN",
+	"GEOADD", "GEODIST", "GEOHASH", "GEOPOS", "GEORADIUS", "GEORADIUSBYMEMBER"}
+
+var hostileArgs = []string{"", "0", "1", "-1", "2", "10", "x", "abc", "1.5", "-0", "nan", "inf", "-inf", "(1", "(", "(x", "1e400", "0x10",
+	"9223372036854775807", "9223372036854775808", "-9223372036854775808", "-9223372036854775809", "99999999999999999999", " 1", "1 ",
+	"NX", "XX", "GT", "LT", "CH", "INCR", "EX", "PX", "EXAT", "PXAT", "GET", "KEEPTTL", "MATCH", "COUNT", "TYPE", "LIMIT", "WITHSCORES",
+	"BYSCORE", "REV", "WEIGHTS", "AGGREGATE", "BIT", "BYTE", "BEFORE", "AFTER", "SUM", "MIN", "MAX", "WITHDIST", "WITHCOORD", "WITHHASH", "M", "KM", "ASC", "DESC", "ANY",
+	"k1", "k2", "ks", "kl", "kh", "kS", "kz", "*", "?", "[", "\\", "a\r\nb", "LIST", "SETNAME", "GET", "DATABASES", "13.361389", "38.115556", "Palermo"}
+
+// hostile: prior states of every type, then every command with 0..8 hostile arguments
+func (g *gen) hostile(n int, modelledOnly bool) []step {
+	st := []step{
+		{Name: "SET", Args: []string{lit("ks"), lit("10")}},
+		{Name: "RPUSH", Args: []string{lit("kl"), lit("a"), lit("b"), lit("c")}},
+		{Name: "HSET", Args: []string{lit("kh"), lit("f"), lit("1")}},
+		{Name: "SADD", Args: []string{lit("kS"), lit("a"), lit("b")}},
+		{Name: "ZADD", Args: []string{lit("kz"), lit("1"), lit("a"), lit("2"), lit("b")}},
+	}
+	for i := 0; i < n; i++ {
+		name := g.r.pick(allCommands)
+		if modelledOnly {
+			for strings.HasPrefix(name, "GEO") || name == "INFO" || name == "CLIENT" || name == "CONFIG" || name == "RANDOMKEY" ||
+				name == "SRANDMEMBER" || name == "BLPOP" || name == "BRPOP" {
+				name = g.r.pick(allCommands)
+			}
+		}
+		if name == "BLPOP" || name == "BRPOP" {
+			// blocking with a timeout that does not parse as 0 would stall the single-threaded runner:
+			// the last argument is a tiny timeout
+			k := 1 + g.r.intn(3)
+			var as []string
+			for j := 0; j < k; j++ {
+				as = append(as, lit(g.r.pick([]string{"kl", "k1", "ks", "nolist"})))
+			}
+			as = append(as, lit(g.r.pick([]string{"0.01", "0.02", "x", "-1"})))
+			st = append(st, step{Conn: g.r.intn(2), Name: name, Args: as})
+			continue
+		}
+		if g.r.intn(25) == 0 {
+			name = g.r.pick([]string{"NOSUCHCMD", "", "get\r\n", "SET\x00"})
+		}
+		k := g.r.intn(9)
+		var as []string
+		for j := 0; j < k; j++ {
+			if j == 0 && g.r.intn(2) == 0 {
+				as = append(as, lit(g.r.pick([]string{"ks", "kl", "kh", "kS", "kz", "k1"})))
+			} else if g.r.intn(40) == 0 {
+				as = append(as, tokPattern(5000, 3))
+			} else {
+				as = append(as, lit(g.r.pick(hostileArgs)))
+			}
+		}
+		st = append(st, step{Conn: g.r.intn(2), Name: name, Args: as})
+	}
+	return st
 }
